@@ -785,9 +785,7 @@ def staged_run(pid, sources, stages, out, tier, cfg="TraceYomm2_plain.cfg"):
             if rc is not None:
                 total["programs"] += 1
                 if st in (2, 3):
-                    total["so"] += text.count('"so":1')
-                    if '"so":0' in text:
-                        raise C.ToolFailure("vacuous: %s was compiled with slots.hpp but a method does not use static offsets" % k)
+                    total["so"] += text.count('"so":1')      # (a method without generated offsets logs an event that is rejected)
                 if st in (3, 4):
                     total["installed"] += text.count('"e":"installed"')
         for name, gf in generated.items():
@@ -1441,6 +1439,10 @@ def check_C09(tier, seed):
     bare += [bare_vptr_script(rng, "vp-early-%d" % i, ["ind", "indvec", "indfast"], True) for i in range(60 if tier == "quick" else 1000)]
     F.execute_and_validate("C09", exe, bare, out, "c09-bare", TCFG)
     plain_programs("C09", rng, out, 4 if tier == "quick" else 40, tier)
+    # real class hierarchies (multiple and virtual inheritance): virtual_ptr / virtual_shared_ptr arguments built by four routes;
+    # every definition looks at the objects it receives
+    lat = F.gen_registries("GenLat_P4any.cfg", out, module="GenLat.tla")
+    real_class_programs("C09", lat, rng, out, 10 if tier == "quick" else 80, tier)
 
     def other_object(ev):
         if ev.get("o", -1) >= 0 and ev["recv"]:
